@@ -1,0 +1,24 @@
+//go:build verif
+
+package dragonboat
+
+// VerifC11SeeNode plays the part of an engine worker that is reloading its node map
+// (engine.loadBucketNodes / workerPool.loadNodes): it looks the shard's node up with
+// forEachShard, i.e. under NodeHost.mu.RLock, and returns the two steps the worker performs
+// afterwards, outside that lock: n.loaded() (lateLoad) and, at its next reload after the shard
+// was stopped, n.offloaded() (offload). The /verif harness of property C11 runs StopShard
+// between the lookup and lateLoad: the schedule in which the offload counter reaches zero
+// twice and the node is handed to the close worker pool twice.
+func VerifC11SeeNode(nh *NodeHost, shardID uint64) (lateLoad func(), offload func(), ok bool) {
+	var n *node
+	nh.forEachShard(func(cid uint64, v *node) bool {
+		if cid == shardID {
+			n = v
+		}
+		return true
+	})
+	if n == nil {
+		return nil, nil, false
+	}
+	return func() { n.loaded() }, func() { n.offloaded() }, true
+}
